@@ -86,6 +86,17 @@ const MODULES: &[Mod] = &[
     },
 ];
 
+/// (cache_rel, server_rel) of the file a case is about
+fn rels(m: &Mod, file: &str) -> (String, String) {
+    let debug_leaf = m.debug_file.rsplit('/').next().unwrap();
+    let bin_leaf = m.code_file.rsplit('/').next().unwrap();
+    match file {
+        "bin" => (format!("{debug_leaf}/{}/{bin_leaf}", m.debug_id), format!("{bin_leaf}/{}/{bin_leaf}", m.code_id.unwrap_or(""))),
+        "pdb" => (format!("{debug_leaf}/{}/{debug_leaf}", m.debug_id), format!("{debug_leaf}/{}/{debug_leaf}", m.debug_id)),
+        _ => (m.cache_rel.to_string(), m.server_rel.to_string()),
+    }
+}
+
 fn module(m: &Mod) -> SimpleModule {
     SimpleModule::from_basic_info(
         Some(m.debug_file.to_string()),
@@ -122,6 +133,8 @@ struct Case {
     resps: Vec<RespSpec>,
     drop: String,
     race: bool,
+    /// `sym` (locate_symbols), or `bin` / `pdb` (locate_file: the opaque download path `fetch_lookup`)
+    file: String,
 }
 
 fn parse_resp(s: &str) -> Option<RespSpec> {
@@ -161,7 +174,11 @@ fn show_resp(r: &RespSpec) -> String {
 
 fn parse_case(case: &str) -> Option<Case> {
     let f: Vec<&str> = case.split(' ').filter(|s| !s.is_empty()).collect();
-    if f.len() != 7 || f[0] != "cache" {
+    if (f.len() != 7 && f.len() != 8) || f[0] != "cache" {
+        return None;
+    }
+    let file = if f.len() == 8 { f[7].strip_prefix("file:")?.to_string() } else { "sym".to_string() };
+    if !["sym", "bin", "pdb"].contains(&file.as_str()) {
         return None;
     }
     let m: usize = f[1].strip_prefix("m:")?.parse().ok()?;
@@ -187,20 +204,24 @@ fn parse_case(case: &str) -> Option<Case> {
         "1" => true,
         _ => return None,
     };
-    if race && (resps.len() != 2 || drop != "-") {
+    if race && (resps.len() != 2 || drop != "-" || file != "sym") {
         return None;
     }
-    Some(Case { m, pre, fs, resps, drop, race })
+    if file != "sym" && (MODULES[m].code_id.is_none() || !["-", "dir", "special", "dangling"].contains(&pre.as_str())) {
+        return None;
+    }
+    Some(Case { m, pre, fs, resps, drop, race, file })
 }
 fn show_case(c: &Case) -> String {
     format!(
-        "cache m:{} pre:{} fs:{} r:{} drop:{} race:{}",
+        "cache m:{} pre:{} fs:{} r:{} drop:{} race:{}{}",
         c.m,
         c.pre,
         c.fs,
         if c.resps.is_empty() { "-".to_string() } else { c.resps.iter().map(show_resp).collect::<Vec<_>>().join("|") },
         c.drop,
-        if c.race { 1 } else { 0 }
+        if c.race { 1 } else { 0 },
+        if c.file == "sym" { String::new() } else { format!(" file:{}", c.file) }
     )
 }
 
@@ -422,8 +443,8 @@ struct Server {
 
 fn serve_one(mut s: TcpStream, scripts: &BTreeMap<String, Script>, log: &Mutex<Vec<String>>) {
     let _ = s.set_nodelay(true);
-    let _ = s.set_read_timeout(Some(Duration::from_secs(3)));
-    let _ = s.set_write_timeout(Some(Duration::from_secs(3)));
+    let _ = s.set_read_timeout(Some(Duration::from_secs(20)));
+    let _ = s.set_write_timeout(Some(Duration::from_secs(20)));
     let mut head = vec![];
     let mut buf = [0u8; 2048];
     while !head.windows(4).any(|w| w == b"\r\n\r\n") {
@@ -445,7 +466,7 @@ fn serve_one(mut s: TcpStream, scripts: &BTreeMap<String, Script>, log: &Mutex<V
     };
     if let Some(g) = &sc.gate {
         let t0 = std::time::Instant::now();
-        while !g.load(Ordering::SeqCst) && t0.elapsed() < Duration::from_secs(4) {
+        while !g.load(Ordering::SeqCst) && t0.elapsed() < Duration::from_secs(25) {
             std::thread::sleep(Duration::from_micros(200));
         }
     }
@@ -675,7 +696,7 @@ fn setup_dirs(c: &Case, m: &Mod) -> Dirs {
     if c.fs != "tmpmissing" {
         std::fs::create_dir_all(&d.tmp).unwrap();
     }
-    let final_path = d.cache.join(m.cache_rel);
+    let final_path = d.cache.join(rels(m, &c.file).0);
     let leaf_dir = final_path.parent().unwrap().to_path_buf();
     if c.fs == "subfile" {
         // <cache>/<debug file> is a regular file: create_dir_all(<cache>/<debug file>/<id>) fails
@@ -848,7 +869,7 @@ fn run_once(c: &Case, m: &Mod, prep: &Prepared, drop_at: Option<usize>) -> RunOb
     let suppliers: Vec<HttpSymbolSupplier> = (0..ntasks)
         .map(|t| {
             let _g = rt.enter();
-            HttpSymbolSupplier::new(urls_of(t), d.cache.clone(), d.tmp.clone(), local_paths.clone(), Duration::from_secs(5))
+            HttpSymbolSupplier::new(urls_of(t), d.cache.clone(), d.tmp.clone(), local_paths.clone(), Duration::from_secs(30))
         })
         .collect();
     obs.results = vec![String::new(); ntasks];
@@ -857,7 +878,28 @@ fn run_once(c: &Case, m: &Mod, prep: &Prepared, drop_at: Option<usize>) -> RunOb
     type Fut<'a> = Pin<Box<dyn Future<Output = Result<breakpad_symbols::LocateSymbolsResult, SymbolError>> + Send + 'a>>;
     let caught = catch(|| {
         if !c.race {
-            let mut fut: Option<Fut> = Some(suppliers[0].locate_symbols(&md));
+            let kind = match c.file.as_str() {
+                "bin" => Some(breakpad_symbols::FileKind::Binary),
+                "pdb" => Some(breakpad_symbols::FileKind::ExtraDebugInfo),
+                _ => None,
+            };
+            let file_result: Arc<Mutex<Option<String>>> = Arc::new(Mutex::new(None));
+            let file_result_ref = file_result.clone();
+            let sup0 = &suppliers[0];
+            let md_ref = &md;
+            let mut fut: Option<Fut> = Some(match kind {
+                None => sup0.locate_symbols(md_ref),
+                // the opaque download: map its result into the same type (Ok is reported through `file_result`)
+                Some(k) => Box::pin(async move {
+                    match sup0.locate_file(md_ref, k).await {
+                        Ok(_path) => {
+                            *file_result_ref.lock().unwrap() = Some("found".into());
+                            Err(SymbolError::MissingDebugFileOrId)
+                        }
+                        Err(_) => Err(SymbolError::NotFound),
+                    }
+                }),
+            });
             let mut polls = 0usize;
             let res = rt.block_on(std::future::poll_fn(|cx| {
                 if drop_at == Some(polls) {
@@ -887,7 +929,11 @@ fn run_once(c: &Case, m: &Mod, prep: &Prepared, drop_at: Option<usize>) -> RunOb
                     obs.results[0] = "dropped".into();
                 }
                 Some(r) => {
-                    obs.results[0] = class_of(&r, port);
+                    drop(fut.take());
+                    obs.results[0] = match file_result.lock().unwrap().take() {
+                        Some(f) => f,
+                        None => class_of(&r, port),
+                    };
                     if let Ok(l) = r {
                         obs.tables[0] = Some(l.symbols);
                     }
@@ -909,7 +955,7 @@ fn run_once(c: &Case, m: &Mod, prep: &Prepared, drop_at: Option<usize>) -> RunOb
                     if r.is_some() {
                         return r;
                     }
-                    if server.log().iter().any(|t| t.starts_with("/t1s0/")) || t0.elapsed() > Duration::from_secs(4) {
+                    if server.log().iter().any(|t| t.starts_with("/t1s0/")) || t0.elapsed() > Duration::from_secs(20) {
                         return None;
                     }
                     tokio::time::sleep(Duration::from_micros(200)).await;
@@ -941,7 +987,7 @@ fn run_once(c: &Case, m: &Mod, prep: &Prepared, drop_at: Option<usize>) -> RunOb
     drop(rt);
     obs.after_cache = tree(&d.cache, port);
     obs.after_tmp = tree(&d.tmp, port);
-    obs.node = if c.fs == "cachefile" || c.fs == "subfile" { "none".into() } else { node_at(&d.cache.join(m.cache_rel), port) };
+    obs.node = if c.fs == "cachefile" || c.fs == "subfile" { "none".into() } else { node_at(&d.cache.join(rels(m, &c.file).0), port) };
     obs.raw_log = server.log();
     obs.reqs = vec![vec![]; ntasks];
     for t in &obs.raw_log {
@@ -960,7 +1006,7 @@ fn run_once(c: &Case, m: &Mod, prep: &Prepared, drop_at: Option<usize>) -> RunOb
             obs.reqs[0].push(i);
         }
         // the request target must be the expected path + query
-        let expect_tail = format!("/{}", m.server_rel);
+        let expect_tail = format!("/{}", rels(m, &c.file).1);
         if !t.ends_with(&expect_tail) {
             obs.midflight.push(("unexpected-request-target".into(), format!("requested {t:?}, expected …{expect_tail:?}")));
         }
@@ -1005,10 +1051,51 @@ fn same_table(a: &SymbolFile, b: &SymbolFile) -> bool {
         && a.win_stack_fpo_info == b.win_stack_fpo_info
 }
 
+/// the opaque download path (`locate_file` → `fetch_lookup`): an entry is exactly a completely served body
+fn oracle_file(c: &Case, m: &Mod, prep: &Prepared, obs: &RunObs, what: &str, out: &mut Vec<(String, String)>) {
+    if !obs.after_tmp.is_empty() {
+        out.push(("stray-temp-file".into(), format!("{what}: tmp directory holds {:?}", obs.after_tmp)));
+    }
+    let expected_path = rels(m, &c.file).0;
+    for (p, desc) in &obs.after_cache {
+        if obs.before.get(p) == Some(desc) {
+            continue;
+        }
+        if *p != expected_path {
+            out.push(("unexpected-cache-entry".into(), format!("{what}: {p} = {desc} appeared below the cache directory")));
+            continue;
+        }
+        if obs.results[0] != "found" {
+            out.push(("failed-download-left-cache-entry".into(), format!("{what}: result {:?} but {p} = {desc}", obs.results)));
+            continue;
+        }
+        let ok = c.resps.iter().enumerate().any(|(i, r)| {
+            effective_body(r, &prep.bodies[i]).map(|b| {
+                let b = canon(&b, obs.port);
+                *desc == format!("file:{:016x}:{}", fnv64(&b), b.len())
+            }) == Some(true)
+        });
+        if !ok {
+            out.push(("file-entry-not-a-complete-body".into(), format!("{what}: {p} = {desc} is not a completely served body")));
+        }
+    }
+    for (p, desc) in &obs.before {
+        if !obs.after_cache.contains_key(p) && obs.results[0] != "found" {
+            out.push(("failed-download-removed-cache-entry".into(), format!("{what}: {p} = {desc} vanished, result {:?}", obs.results)));
+        }
+    }
+    if obs.results[0] == "found" && !obs.node.starts_with("file:") {
+        out.push(("found-without-file".into(), format!("{what}: locate_file returned a path but the cache has {}", obs.node)));
+    }
+}
+
 /// the property's oracle on one finished run (implementation only)
 fn oracle(c: &Case, m: &Mod, prep: &Prepared, obs: &RunObs, what: &str, out: &mut Vec<(String, String)>) {
     for (cl, d) in &obs.midflight {
         out.push((cl.clone(), format!("{what}: {d}")));
+    }
+    if c.file != "sym" {
+        return oracle_file(c, m, prep, obs, what, out);
     }
     // stray temporary files
     if !obs.after_tmp.is_empty() {
@@ -1237,11 +1324,11 @@ impl Engine for Cache {
     fn generate(&self, tier: Tier, rng: &mut Rng, emit: &mut dyn FnMut(String)) {
         let quick = tier == Tier::Quick;
         let mk = |m: u64, pre: &str, fs: &str, resps: Vec<RespSpec>, drop: &str, race: bool| {
-            show_case(&Case { m: m as usize, pre: pre.into(), fs: fs.into(), resps, drop: drop.into(), race })
+            show_case(&Case { m: m as usize, pre: pre.into(), fs: fs.into(), resps, drop: drop.into(), race, file: "sym".into() })
         };
         // 1. single server, every response kind, run to completion and dropped at every poll boundary
         let kinds = ["ok", "ok", "status", "corrupt", "unterminated", "empty", "cut", "cut"];
-        let rounds = if quick { 6 } else { 40 };
+        let rounds = if quick { 24 } else { 160 };
         for round in 0..rounds {
             for kind in kinds {
                 let r = resp_gen(rng, kind, false);
@@ -1250,7 +1337,7 @@ impl Engine for Cache {
             }
         }
         // 2. cut exactly on line boundaries and one byte around them, all three framings
-        for _ in 0..(if quick { 8 } else { 60 }) {
+        for _ in 0..(if quick { 30 } else { 240 }) {
             let mut r = resp_gen(rng, "ok", false);
             let m = rng.below(3);
             if let Some(b) = body_bytes(&r.body, &MODULES[m as usize]) {
@@ -1272,7 +1359,7 @@ impl Engine for Cache {
             }
         }
         // 3. two or three servers: the cascade (only a success stops it)
-        for _ in 0..(if quick { 24 } else { 200 }) {
+        for _ in 0..(if quick { 100 } else { 800 }) {
             let n = rng.range(2, 3);
             let mut resps = vec![];
             for i in 0..n {
@@ -1286,7 +1373,7 @@ impl Engine for Cache {
         let fss = ["tmpmissing", "cachefile", "subfile", "rotmp", "rocache", "roleaf"];
         for pre in pres {
             for kind in ["ok", "status", "corrupt", "cut"] {
-                let reps = if quick { 1 } else { 4 };
+                let reps = if quick { 3 } else { 16 };
                 for _ in 0..reps {
                     let r = resp_gen(rng, kind, false);
                     emit(mk(rng.below(3), pre, "-", vec![r], if rng.chance(1, 2) { "all" } else { "-" }, false));
@@ -1295,7 +1382,7 @@ impl Engine for Cache {
         }
         for fs in fss {
             for kind in ["ok", "ok", "status", "corrupt", "cut"] {
-                let reps = if quick { 1 } else { 4 };
+                let reps = if quick { 2 } else { 10 };
                 for _ in 0..reps {
                     let r = resp_gen(rng, kind, false);
                     let pre = if fs == "tmpmissing" || fs.starts_with("ro") { *rng.pick(&["-", "-", "dir", "special", "valid"]) } else { "-" };
@@ -1307,7 +1394,7 @@ impl Engine for Cache {
         emit(mk(0, "-", "-", vec![], "all", false));
         emit(mk(1, "valid", "-", vec![], "all", false));
         // 6. two racing calls
-        for _ in 0..(if quick { 10 } else { 60 }) {
+        for _ in 0..(if quick { 40 } else { 300 }) {
             let ka = *rng.pick(&["ok", "ok", "ok", "corrupt", "status"]);
             let kb = *rng.pick(&["ok", "ok", "ok", "corrupt", "cut"]);
             let a = resp_gen(rng, ka, false);
@@ -1322,8 +1409,29 @@ impl Engine for Cache {
             r.split = if i % 2 == 0 { "w".into() } else { format!("s{}", rng.below(1000)) };
             emit(mk(rng.below(3), "-", "-", vec![r], "-", false));
         }
+        // 6c. the opaque download path (binaries / pdb through locate_file → fetch_lookup): oracle only
+        for _ in 0..(if quick { 40 } else { 300 }) {
+            let n = rng.range(1, 2);
+            let mut resps = vec![];
+            for _ in 0..n {
+                let kind = *rng.pick(&["ok", "ok", "status", "cut", "cut", "empty"]);
+                resps.push(resp_gen(rng, kind, false));
+            }
+            let pre = *rng.pick(&["-", "-", "-", "dir", "special", "dangling"]);
+            let fs = *rng.pick(&["-", "-", "-", "tmpmissing", "subfile"]);
+            let c = Case {
+                m: rng.below(2) as usize,
+                pre: pre.into(),
+                fs: fs.into(),
+                resps,
+                drop: if rng.chance(1, 2) { "all".into() } else { "-".into() },
+                race: false,
+                file: if rng.chance(2, 3) { "bin".into() } else { "pdb".into() },
+            };
+            emit(show_case(&c));
+        }
         // 7. bodies larger than the parser's initial 10 KiB window
-        for _ in 0..(if quick { 3 } else { 20 }) {
+        for _ in 0..(if quick { 6 } else { 40 }) {
             let kind = *rng.pick(&["ok", "ok", "corrupt", "cut"]);
             let mut r = resp_gen(rng, kind, true);
             if kind == "cut" {
@@ -1335,7 +1443,8 @@ impl Engine for Cache {
 
     fn model_request(&self, case: &str) -> Option<String> {
         let c = parse_case(case)?;
-        if skipped_for_root(&c) || outside_model(&c) {
+        if skipped_for_root(&c) || outside_model(&c) || c.file != "sym" {
+            // (`file:bin|pdb`: the opaque download path is not modelled — oracle only)
             return None;
         }
         let m = &MODULES[c.m];
@@ -1367,6 +1476,7 @@ impl Engine for Cache {
         res.tags.push(format!("pre:{}", c.pre));
         res.tags.push(format!("fs:{}", c.fs));
         res.tags.push(format!("servers:{}", c.resps.len()));
+        res.tags.push(format!("file:{}", c.file));
         if c.race {
             res.tags.push("race".into());
         }
